@@ -10,6 +10,12 @@ CLAIMED = {
     "C01": ("4 C01", "bounded exhaustive enumeration of operator sequences + property-based testing (rapid) of random typed expression trees against an independent reference interpreter; metamorphic layout equivalence",
             "Exploration: all operator pairs and triples over several operand sets (exhaustive), hand-enumerated unary/postfix/ternary/member combinations and random typed trees to depth 5 with injected faults; each case is rendered in two layouts and compared with a reference interpreter written from the statement (precedence table, wrapping int64, IEEE doubles, string ops, listed error cases). No claim beyond the explored depth and operand values.",
             "Trusted: lib/refint, lib/tw printers (validated per case by a reference parser round trip), lib/spec. Unspecified outcomes (e.g. bool == bool, float %, out-of-range index) are executed but not asserted. Float ++/-- accepts the IEEE result or the decimal-exact result.", "exploration"),
+    "C06": ("4 C06", "property-based testing (rapid) of generated layout/page trees against an independent composition model + exhaustive enumeration of insert subsets/forms/orders for one layout",
+            "Exploration: layouts with 1..4 reserves at every nesting position x pages inserting any subset in any order in block or expression form with junk between, data of every kind, three directory/extension settings; all 8 subsets x forms x orders x flag x lengths for a fixed three-reserve layout; the four error classes. Expected output from the reference composition model (lib/refint RenderPage).",
+            "Trusted: lib/refint composition model, lib/tree (scratch directories, chdir). Insert bodies contain no assignments and do not read layout-local variables (the statement fixes 'evaluated with the data of the call' only).", "exploration"),
+    "C07": ("4 C07", "property-based testing (rapid) of generated pages with multiple component uses against a reference instantiation model + exhaustive enumeration of slot-passing combinations for two/three uses",
+            "Exploration: four component files x pages with 1..4 uses (same component repeatedly, in loops, in branches, in insert blocks) with generated arguments and slot bodies; all 16 slot-passing combinations x 4 page shapes; six load-time error classes (message must name the component); eight argument-collision shapes (outer value must never show).",
+            "Trusted: lib/refint component model (arguments evaluated at the place of use, placeholders replaced per use). Whitespace-only text right after a slot-less use, nested component uses and components used from layouts are not generated (not settled by the statement).", "exploration"),
     "C08": ("4 C08", "bounded exhaustive enumeration of lexeme sequences + property-based testing (rapid) of prefixes/mutations of generated valid templates and lexeme soups, with an out-of-band watchdog for non-termination",
             "Exploration: every sequence of up to 3 (quick) / 4 (thorough) lexemes from the full lexeme alphabet; every prefix that ends inside a construct, illegal characters inside code and lexeme mutations of generated valid templates; random soups; the same as files of a template directory. Oracle: returns (watchdog: CPU-time based, confirmed and minimised out of process), no panic, program xor errors with line >= 1, must-reject classes rejected.",
             "Trusted: the watchdog thresholds (10 s wall and 5 s CPU on one input of < 1 KB), the span bookkeeping of the printer that decides which prefixes must be rejected. Inputs containing NUL are lexed up to the NUL (lexer's end marker) and only need to terminate.", "exploration"),
